@@ -1446,6 +1446,13 @@ def atomic_diffs(a, b, path="", out=None):
         if a[0] in LEAF_TAGS and b[0] in LEAF_TAGS:
             out.append(f"{path}: {_short(a)} instead of {_short(b)}")
             return out
+        # len(x) against x.shape[0]: the same number for an array with at least one axis, not defined for a list / a
+        # 0-d array respectively -- depends on the type of x: no verdict from it
+        for x, y in ((a, b), (b, a)):
+            if x[0] == "call" and x[1] == ("glob", "builtins.len") and len(x[2]) == 1 and not x[3] \
+                    and y[0] == "sub" and y[2] == ("const", 0) and is_term(y[1]) and y[1][0] == "attr" and y[1][2] == "shape" and y[1][1] == x[2][0]:
+                out.append(f"~{path}: len(x) against x.shape[0]")
+                return out
         # an explicit broadcast_to against the implicit broadcasting of the operation that consumes the value: whether
         # the two agree depends on the shapes of the other operands -- no verdict from it
         for x, y, word in ((a, b, "is explicitly broadcast"), (b, a, "is no longer explicitly broadcast")):
